@@ -37,6 +37,14 @@ Expressible(e) ==
        \/ (e.mods = Ctrl + Alt /\ e.code \in (97..122) \ {104, 105, 109})
   ELSE FALSE
 
+(* Control codes that several keys share in the legacy encoding (xterm): Ctrl with any key of a  *)
+(* class sends the class's code, so the chord arrives as Ctrl + SOME key of its class - which one *)
+(* the decoder names is its choice (C09).  ESC (Ctrl+3, Ctrl+[) and DEL (Ctrl+8, Ctrl+?) are the   *)
+(* Escape and Backspace keys themselves and are left out.                                          *)
+CtrlClasses == {{32, 50, 64}, {52, 92}, {53, 93}, {54, 94}, {55, 47, 95}}     \* NUL, FS, GS, RS, US
+CtrlClassOf(c) == IF \E K \in CtrlClasses : c \in K THEN CHOOSE K \in CtrlClasses : c \in K ELSE {}
+SharedCtrl(e) == e.name = "" /\ e.mods = Ctrl /\ CtrlClassOf(e.code) # {}
+
 CursorFinal(n) == CASE n = "UP" -> 65 [] n = "DOWN" -> 66 [] n = "RIGHT" -> 67 [] n = "LEFT" -> 68 [] n = "HOME" -> 72 [] n = "END" -> 70
 KeypadFinal(n) == CASE n = "KP_0" -> 112 [] n = "KP_1" -> 113 [] n = "KP_2" -> 114 [] n = "KP_3" -> 115 [] n = "KP_4" -> 116
                     [] n = "KP_5" -> 117 [] n = "KP_6" -> 118 [] n = "KP_7" -> 119 [] n = "KP_8" -> 120 [] n = "KP_9" -> 121
@@ -55,6 +63,11 @@ ModeBytes(e) ==
 
 KeyWhy(e) ==
   IF ModeBytes(e) # {} /\ e.bytes \notin ModeBytes(e) THEN "mode-selected-encoding"
+  ELSE IF SharedCtrl(e) THEN
+       (IF e.bytes = <<>> THEN "nothing-written"
+        ELSE IF e.n # 1 THEN "not-one-key-event"
+        ELSE IF \E c \in CtrlClassOf(e.code) : \E k \in 1..Len(e.ctrlm) : e.ctrlm[k] = c THEN "ok"
+        ELSE "decoded-key-not-in-shared-control-class")
   ELSE IF ~Expressible(e) THEN "ok"
   ELSE IF e.bytes = <<>> THEN "nothing-written"
   ELSE IF e.n # 1 THEN "not-one-key-event"
@@ -74,8 +87,21 @@ MouseEnabled(e) ==
   ELSE IF e.button # 3 THEN e.m1002 \/ e.m1003          \* motion with a button down
   ELSE e.m1003                                          \* plain motion
 
+(* Alternate scroll (xterm mode 1007): on the alternate screen, while no tracking mode reports the   *)
+(* mouse, a wheel step is sent as one or more cursor-up / cursor-down keys (CSI or SS3 form); every *)
+(* other mouse event writes nothing, and so does the wheel when 1007 is reset or the normal screen  *)
+(* is active.                                                                                       *)
+RECURSIVE Repeats(_, _)
+Repeats(b, unit) == IF b = <<>> THEN TRUE
+                    ELSE Len(b) >= 3 /\ SubSeq(b, 1, 3) = unit /\ Repeats(SubSeq(b, 4, Len(b)), unit)
+ArrowKeys(b, final) == b # <<>> /\ (Repeats(b, <<27, 79, final>>) \/ Repeats(b, <<27, 91, final>>))
+AltScrollWhy(e) ==
+  IF e.alt /\ e.m1007 /\ e.type = "press" /\ e.button \in {64, 65} THEN
+       (IF ArrowKeys(e.bytes, IF e.button = 64 THEN 65 ELSE 66) THEN "ok" ELSE "alternate-scroll-wheel-not-sent-as-cursor-keys")
+  ELSE IF e.bytes = <<>> THEN "ok" ELSE "mouse-not-enabled-but-written"
+
 MouseWhy(e) ==
-  IF ~MouseEnabled(e) THEN (IF e.bytes = <<>> THEN "ok" ELSE "mouse-not-enabled-but-written")
+  IF ~MouseEnabled(e) THEN AltScrollWhy(e)
   ELSE IF ~e.m1006 THEN "ok"                                           \* legacy encodings: not constrained by C13
   ELSE IF e.bytes = <<>> THEN "mouse-enabled-but-nothing-written"
   ELSE IF ~e.sgr.ok THEN "mouse-not-sgr-encoded"
